@@ -50,6 +50,7 @@ class MemFS:
         self.logging = True
         self.uuid_n = 0
         self.read_monitor = None      # callable(path, bytes) for every completed read
+        self.list_reverse = False     # directory listing order: sorted or reverse sorted (the kernel promises no order)
         self.cwd = "/"
 
     # ------------------------------------------------------------------ step machinery
@@ -310,7 +311,8 @@ class MemFS:
     def listdir(self, p="."):
         p = self._norm(p)
         self.tick("listdir", p)
-        return self._do_listdir(p)
+        names = self._do_listdir(p)
+        return names[::-1] if self.list_reverse else names
 
     def isfile(self, p):
         p = self._norm(p)
@@ -398,6 +400,8 @@ class MemFS:
         pass
 
     def copytree(self, src, dst, symlinks=False, ignore=None, copy_function=None, ignore_dangling_symlinks=False, dirs_exist_ok=False):
+        """shutil.copytree semantics: the destination directory must not exist; errors of individual entries are collected,
+        copying continues with the remaining entries, and shutil.Error is raised at the end"""
         src, dst = self._norm(src), self._norm(dst)
         names = self.listdir(src)
         try:
@@ -408,12 +412,20 @@ class MemFS:
         except FileNotFoundError:
             self.makedirs(dst, exist_ok=dirs_exist_ok)
         cf = copy_function or self.copy2
+        errors = []
         for n in names:
             s, d = src + "/" + n, dst + "/" + n
-            if self._q_isdir(s):
-                self.copytree(s, d, copy_function=copy_function, dirs_exist_ok=dirs_exist_ok)
-            else:
-                cf(s, d)
+            try:
+                if self._q_isdir(s):
+                    self.copytree(s, d, copy_function=copy_function, dirs_exist_ok=dirs_exist_ok)
+                else:
+                    cf(s, d)
+            except _shutil.Error as err:
+                errors.extend(err.args[0])
+            except OSError as why:
+                errors.append((s, d, str(why)))
+        if errors:
+            raise _shutil.Error(errors)
         return dst
 
     def move(self, src, dst):
